@@ -13,7 +13,7 @@ FLOORS = {
     'quick': {'distinct_nontrivial': 800, 'feature:ambiguous': 800, 'feature:cyclic-sound': 100,
               'feature:ambig-through-inline': 20, 'feature:ambig-through-expand1': 20,
               'feature:terminal-internal-ambiguity': 30, 'judged:basic': 500, 'judged:dynamic': 500,
-              'judged:dynamic_complete': 500, 'corpus': 6, 'monitor:collapse_ambiguities': 500},
+              'judged:dynamic_complete': 500, 'corpus': 8, 'monitor:collapse_ambiguities': 500},
     'thorough-unused': {'distinct_nontrivial': 12000, 'feature:ambiguous': 12000, 'feature:cyclic-sound': 1500,
                  'feature:ambig-through-inline': 300, 'feature:ambig-through-expand1': 300,
                  'feature:terminal-internal-ambiguity': 400, 'corpus': 6},
@@ -243,6 +243,9 @@ CORPUS = [
     ('ignore-absorbable-both-sides', {'rules': [gen.rule('start', [gen.alt([['t', 'P'], ['t', 'Q']])], mods='!')],
                                       'terms': [gen.term('P', ['x', 'p ?', ''], ex=['p', 'p ']), gen.term('Q', ['x', ' ?q', ''], ex=['q', ' q']), gen.term('WS1', ['x', r'\s', ''], ex=[' '])],
                                       'ignore': ['WS1']}, ('dynamic', 'dynamic_complete'), ['pq', 'p q', 'p  q', 'p   q']),
+    ('ignore-absorbable-rule-before', {'rules': [gen.rule('start', [gen.alt([['r', 'a'], ['t', 'Q']])], mods='!'), gen.rule('a', [gen.alt([gen.LIT('p')]), gen.alt([gen.LIT('p ')])], mods='!')],
+                                       'terms': [gen.term('Q', ['x', ' ?q', ''], ex=['q', ' q']), gen.term('WS1', ['x', r'\s', ''], ex=[' '])],
+                                       'ignore': ['WS1']}, ('dynamic', 'dynamic_complete'), ['pq', 'p q', 'p  q']),
     ('plain-cyclic', {'rules': [gen.rule('start', [gen.alt([_r('start')]), gen.alt([_r('start'), _r('start')]), gen.alt([a])])]}, L3, ['a', 'aa', 'aaa']),
     ('plain-cyclic-null', {'rules': [gen.rule('start', [gen.alt([_r('n'), _r('start'), _r('n')]), gen.alt([a])]), gen.rule('n', [gen.alt([]), gen.alt([b])])]}, L3, ['a', 'ba', 'bab', 'ab']),
 ]
